@@ -669,7 +669,6 @@ def field_name_index(field_name_to_look_up, available_field_names, location):
       not part of ``available_field_names``
     """
     assert field_name_to_look_up is not None
-    assert field_name_to_look_up == field_name_to_look_up.strip()
     assert available_field_names
 
     field_name_to_look_up = field_name_to_look_up.strip()
